@@ -2,7 +2,7 @@
   FcProofs.Lemmas.Cli — helper lemmas for C04 / C20 (cluster B: CLI decision logic).
 -/
 import FcModel.Spec.C04
-namespace Fc.Cli
+namespace Fc.C04
 open Fc
 
 /-! ### decision tables (re-checked against the regenerated source tables) -/
@@ -860,4 +860,18 @@ theorem seqLoop_passes (o : Opts) (ok : PairData → Bool) :
       refine ⟨?_, h2⟩
       rw [h1, hb, hp, List.all_cons, Bool.and_assoc]
 
-end Fc.Cli
+/-! ### the hypothesis of the C04 theorems -/
+
+/-- the pairs of data sets a scenario compares -/
+def Scenario.pairs (s : Scenario) : List PairData :=
+  match s.payload with
+  | .single p => [p]
+  | .seqs _ _ steps => steps
+  | .mixed => []
+
+/-- hypothesis of the C04 theorems: within each data set the field names are pairwise different
+    (true for every file the readers produce: tables and mesh files are keyed by name) -/
+def Scenario.NamesNodup (s : Scenario) : Prop :=
+  ∀ p ∈ s.pairs, (fnames p.res).Nodup ∧ (fnames p.ref).Nodup
+
+end Fc.C04
